@@ -39,3 +39,28 @@ func vSamplesOf(seg *mp4.MediaSegment) []mp4.FullSample {
 	}
 	return ss
 }
+
+// vMkSegment builds a real one-fragment segment (and init segment) with the given sample durations (native side).
+func vMkSegment(durs []uint32) (*mp4.InitSegment, *mp4.MediaSegment) {
+	init := mp4.CreateEmptyInit()
+	init.AddEmptyTrack(90000, "video", "und")
+	seg := mp4.NewMediaSegment()
+	frag, err := mp4.CreateFragment(1, 1)
+	if err != nil {
+		panic(err)
+	}
+	seg.AddFragment(frag)
+	for i, d := range durs {
+		frag.AddFullSample(mp4.FullSample{Sample: mp4.Sample{Flags: mp4.SyncSampleFlags, Dur: d, Size: uint32(i + 1)}, DecodeTime: 0, Data: make([]byte, i+1)})
+	}
+	return init, seg
+}
+
+// vChunkSamples decodes the samples of a chunk's real fragment (native side).
+func vChunkSamples(init *mp4.InitSegment, ch chunk) []mp4.FullSample {
+	ss, err := ch.frag.GetFullSamples(init.Moov.Mvex.Trex)
+	if err != nil {
+		panic("vChunkSamples: " + err.Error())
+	}
+	return ss
+}
